@@ -118,6 +118,16 @@ impl Property for C16 {
             sc.at(start, Op::SampleEvery { node: 0, period_ms: period, count: (span / period).min(4_000) as u32, table: false });
             sc.params.insert("polling".into(), 1);
         }
+        // a burst of further searches, one per millisecond, across the instants in which the bootstrap
+        // completes: a search command served in the very loop turn in which the completion is noticed
+        if !big && rng.chance(1, 8) {
+            let span = (200 + 6 * sc.net.lat_max_ms).min(1_500);
+            let from = start + if sc.param("t_up") > 0 { sc.param("t_up") as u64 } else { 0 };
+            for k in 0..span {
+                sc.at(from + k, Op::Search { node: 0, ih, announce: false });
+            }
+            sc.params.insert("search_burst".into(), span as i64);
+        }
         // late state samples: tell "never bootstrapped" (not this property) from "search never released"
         sc.at(100_000, Op::Sample { node: 0, table: false });
         sc.at(160_000, Op::Sample { node: 0, table: false });
@@ -221,6 +231,9 @@ impl Property for C16 {
         if sc.param("polling") != 0 {
             v.hit("state_polled_during_bootstrap");
         }
+        if sc.param("search_burst") != 0 {
+            v.hit("search_burst_across_completion");
+        }
         if sc.param("big") != 0 {
             v.hit("no_rebootstrap_network");
         }
@@ -232,12 +245,12 @@ impl Property for C16 {
         v
     }
     fn rule(&self) -> &'static str {
-        "static loss-free network of 1..9 answering stubs (each naming all others) holding 0..3 unique peers each plus 0..4 silent stubs, or (1 run in 4) 10..16 answering stubs so that the node never re-bootstraps, peers on the 8 closest to the info-hash; in a third of the runs an application polls get_state/load_contacts/local_addr every 1..5 ms while the node bootstraps; a fresh real node with 1..3 contacts (+ optionally a dead one); in one run of three every contact is silent until a drawn instant (0.5..25 s), so the first bootstrap attempts fail and searches fall into the back-off pauses; 1..4 searches issued 0 ms .. 40 s after start (with/without announce); control = same search issued when bootstrapped() resolves. non-trivial = at least one search issued before bootstrap completion and the control search yields peers; distinct = distinct order digests"
+        "static loss-free network of 1..9 answering stubs (each naming all others) holding 0..3 unique peers each plus 0..4 silent stubs, or (1 run in 4) 10..16 answering stubs so that the node never re-bootstraps, peers on the 8 closest to the info-hash; in a third of the runs an application polls get_state/load_contacts/local_addr every 1..5 ms while the node bootstraps; a fresh real node with 1..3 contacts (+ optionally a dead one); in one run of three every contact is silent until a drawn instant (0.5..25 s), so the first bootstrap attempts fail and searches fall into the back-off pauses; 1..4 searches issued 0 ms .. 40 s after start (1 run in 8: plus one search per millisecond for 0.2..1.5 s from the instant the contacts start answering) (with/without announce); control = same search issued when bootstrapped() resolves. non-trivial = at least one search issued before bootstrap completion and the control search yields peers; distinct = distinct order digests"
     }
     fn assumptions(&self) -> Vec<&'static str> {
         vec!["peer sets are compared as sets; the network is static and loss-free, as the property's comparison requires"]
     }
     fn required_reach(&self) -> Vec<&'static str> {
-        vec!["search_before_first_datagram", "several_early_searches", "slow_bootstrap", "search_after_bootstrap", "early_search_while_bootstrap_attempts_fail", "state_polled_during_bootstrap", "no_rebootstrap_network"]
+        vec!["search_before_first_datagram", "several_early_searches", "slow_bootstrap", "search_after_bootstrap", "early_search_while_bootstrap_attempts_fail", "state_polled_during_bootstrap", "no_rebootstrap_network", "search_burst_across_completion"]
     }
 }
